@@ -262,3 +262,51 @@ func u64s(v uint64) string {
 	}
 	return string(buf[i:])
 }
+
+// CoordOffsets returns the byte offsets of the float64 vertex coordinates of a VALID encoding
+// of a polyline, a loop or a polygon (either format; compressed: the off-centre points).
+func CoordOffsets(k Kind, b []byte) []int {
+	var offs []int
+	span := func(start, nvertices int) {
+		for i := 0; i < 3*nvertices && start+8*i+8 <= len(b); i++ {
+			offs = append(offs, start+8*i)
+		}
+	}
+	switch k {
+	case KPolyline, KLoop:
+		if len(b) >= 5 {
+			span(5, int(binary.LittleEndian.Uint32(b[1:])))
+		}
+	case KPolygon:
+		for _, f := range Annotate(k, b) {
+			switch f.Name {
+			case "Loop.nvertices":
+				if n := int(binary.LittleEndian.Uint32(b[f.Off:])); n < 1<<20 {
+					span(f.Off+4, n)
+				}
+			case "offCentreIndex":
+				span(f.Off+f.Len, 1)
+			}
+		}
+	}
+	return offs
+}
+
+// NonFiniteBits are the coordinate values the vertex decoders must refuse.
+var NonFiniteBits = []uint64{0x7FF8000000000001, 0x7FF0000000000000, 0xFFF0000000000000, 0xFFF0000000000001}
+
+// CoordMutations replaces single vertex coordinates by NaN / infinities.
+func CoordMutations(k Kind, b []byte, pick func(n int) int) []Mutation {
+	var out []Mutation
+	offs := CoordOffsets(k, b)
+	for j, v := range NonFiniteBits {
+		if len(offs) == 0 {
+			break
+		}
+		off := offs[pick(len(offs))]
+		m := append([]byte{}, b...)
+		binary.LittleEndian.PutUint64(m[off:], v)
+		out = append(out, Mutation{m, "coordinate@" + u64s(uint64(off)) + "=nonfinite" + u64s(uint64(j)), false})
+	}
+	return out
+}
